@@ -115,11 +115,11 @@ def from_wire(s):
 
 def canon(x):
     """value produced by the real interpreter -> Val (kinds exact)"""
-    from klongpy.core import KGSym, KGChar
+    from klongpy.core import KGSym, is_char
     tn = type(x).__name__
     if x is None or tn == "KGUndefined":
         return U
-    if isinstance(x, KGChar):
+    if is_char(x):          # two KGChar classes exist (types and backends.numpy_backend)
         return C(str(x))
     if isinstance(x, KGSym):
         return Y(str(x))
